@@ -13,6 +13,7 @@ from ..util import calls_in, fkey, is_method_call, path_of, recv_of, where
 from .c04 import BACKENDS
 
 PAR = "pyrtma.parser"
+PLATFORM_SIZED_CTYPES = {"c_long", "c_ulong", "c_size_t", "c_ssize_t", "c_void_p", "c_longdouble", "c_wchar", "c_time_t"}
 KIND_OF_TABLE = {"aliases": "alias", "struct_defs": "struct", "message_defs": "message", "constants": "constant"}
 
 
@@ -259,14 +260,22 @@ def run(prog: Program, chk: Check):
              "array members are constructed per element", "array fields are emitted as `Array(n).fill(f())`: one object shared by all elements when f is a struct/message factory")
 
     # ---- T branch type agreement --------------------------------------------------------------------------------------
-    T = chk.rule("C15-T", "in Parser.get_ctype_cls every branch assigns a ctypes *type* to the element variable (never a size)", 2,
+    T = chk.rule("C15-T", "in Parser.get_ctype_cls every branch assigns a ctypes *type* to the element variable (never a size)", 1,
                  "an int multiplied by the length / stored in _fields_ makes the parser's own size check crash on an accepted definition")
     gc = prog.func(PAR, "Parser.get_ctype_cls")
-    # the variable used as element type: `X * (field.length)` / appended bare
-    elem_vars = set()
-    for n in walk_local(gc.node):
-        if isinstance(n, ast.BinOp) and isinstance(n.op, ast.Mult) and isinstance(n.left, ast.Name) and "length" in norm(n.right):
-            elem_vars.add(n.left.id)
+    # the variable used as element type: `X * (field.length)` / appended bare - in get_ctype_cls or in the function it delegates to
+    def elem_vars_of(f_):
+        out_ = set()
+        for n in walk_local(f_.node):
+            if isinstance(n, ast.BinOp) and isinstance(n.op, ast.Mult) and isinstance(n.left, ast.Name) and "length" in norm(n.right):
+                out_.add(n.left.id)
+        return out_
+
+    elem_vars = elem_vars_of(gc)
+    if not elem_vars:
+        cand = [f_ for f_ in prog.module(PAR).functions.values() if len(elem_vars_of(f_)) == 1]
+        if len(cand) == 1:
+            gc, elem_vars = cand[0], elem_vars_of(cand[0])
     if len(elem_vars) != 1:
         raise AnalysisError("anchor vanished: element-type variable in get_ctype_cls")
     ev = next(iter(elem_vars))
@@ -279,8 +288,8 @@ def run(prog: Program, chk: Check):
                 ret = norm(fi.node.returns) if fi is not None and fi.node.returns is not None else ""
                 if ret in ("int", "float", "str", "bool"):
                     kind = ret
-                elif fi is not None and not (ret.startswith("Type[") or ret.startswith("type")):
-                    kind = f"unknown({ret})"
+                elif fi is not None and not (ret.startswith("Type[") or ret.startswith("type")) and not prog.is_expanded_helper(fi) and ret not in ("", "Any", "typing.Any"):
+                    kind = f"unknown({ret})"  # a function of the pinned vocabulary that is not declared to return a type
             T.decide(kind == "type", fkey(gc, n), where(gc, n), f"`{norm(v)}` denotes a ctypes type",
                      f"branch assigns `{norm(v)}` (returns {kind}) to `{ev}`, which is then used as a ctypes type: TypeError for an alias of a struct used as a field type")
 
@@ -441,3 +450,22 @@ def run(prog: Program, chk: Check):
     if nchk < 2:
         raise AnalysisError(f"anchor vanished: String/ByteArray emission sites in get_descriptor ({nchk})")
     chk.units.update({"reference_edges": [f"{a}->{b}" for a, b in edges]})
+
+    # ---- P every accepted closure can be compiled wherever its files live --------------------------------------------------------------
+    Pp = chk.rule("C15-P", "trim_root relates a file to the root with os.path.relpath (total), never with Path.relative_to (raises outside the root directory)", 1,
+                  "a well-formed closure that imports `../common/types.yaml` would abort with an internal ValueError")
+    tr = prog.func(PAR, "Parser.trim_root")
+    uses_rel_to = [c for c in calls_in(tr.node) if isinstance(c.func, ast.Attribute) and c.func.attr == "relative_to"]
+    uses_relpath = [c for c in calls_in(tr.node) if norm(c.func) in ("os.path.relpath", "relpath")]
+    Pp.decide(bool(uses_relpath) and not uses_rel_to, fkey(tr, "total"), where(tr), "os.path.relpath: defined for every pair of paths",
+              "trim_root uses Path.relative_to: it raises ValueError for a file outside the root file's directory (an import through `..` or an absolute path), "
+              "so an accepted closure produces no outputs at all")
+
+    # ---- C the ctypes mirror uses fixed-width types -------------------------------------------------------------------------------------
+    Cc = chk.rule("C15-C", "the ctypes mirror that the size assertion is checked against uses fixed-width ctypes types only", 20,
+                  "c_long / c_ulong are 8 bytes on LP64 platforms while RTMA's long is 4: every definition with a long field fails the final assertion")
+    from .c04 import ctypes_table_entries
+
+    for key, tname, loc in ctypes_table_entries(prog):
+        Cc.decide(tname not in PLATFORM_SIZED_CTYPES, f"{PAR}|ctype:{key}", loc, f"{key} -> {tname}",
+                  f"native type `{key}` is mirrored by ctypes.{tname}, whose size depends on the platform (LP64: 8 bytes): definitions using it are rejected by the size assertion on Linux / macOS")
